@@ -174,6 +174,47 @@ def solver_table(repo):
     return table
 
 
+def solve_proxy(repo):
+    """BaseSolver.solve (skglm/solvers/base.py): under which guards `self._validate` is called, which attributes of `self`
+    the proxy stores, whether it ends with `return self._solve(X, y, datafit, penalty, w_init, Xw_init)`, and which solver
+    classes override `solve` (none should: validation would be bypassed)."""
+    tree = parse(repo, "skglm/solvers/base.py")
+    cls = [n for n in tree.body if isinstance(n, ast.ClassDef) and n.name == "BaseSolver"][0]
+    fn = [m for m in cls.body if isinstance(m, ast.FunctionDef) and m.name == "solve"][0]
+    guards, stores = None, []
+
+    def walk(stmts, conds):
+        nonlocal guards
+        for s in stmts:
+            if isinstance(s, ast.If):
+                walk(s.body, conds + [ast.unparse(s.test)])
+                walk(s.orelse, conds + ["not (" + ast.unparse(s.test) + ")"])
+                continue
+            if isinstance(s, (ast.For, ast.While, ast.Try, ast.With)):
+                walk(getattr(s, "body", []), conds + ["<" + type(s).__name__ + ">"])
+                continue
+            for n in ast.walk(s):
+                if isinstance(n, ast.Call) and isinstance(n.func, ast.Attribute) and n.func.attr == "_validate":
+                    guards = list(conds) if guards is None else guards + ["<second call>"]
+            if isinstance(s, (ast.Assign, ast.AugAssign, ast.AnnAssign)):
+                tg = s.targets if isinstance(s, ast.Assign) else [s.target]
+                for x in tg:
+                    for n in ast.walk(x):
+                        if isinstance(n, ast.Attribute) and isinstance(n.value, ast.Name) and n.value.id == "self":
+                            stores.append(n.attr)
+    walk(fn.body, [])
+    last = fn.body[-1]
+    ret_ok = (isinstance(last, ast.Return) and ast.unparse(last.value) == "self._solve(X, y, datafit, penalty, w_init, Xw_init)")
+    overrides = []
+    for sname, rel in list(SOLVERS.items()):
+        for n in parse(repo, rel).body:
+            if isinstance(n, ast.ClassDef):
+                for m in n.body:
+                    if isinstance(m, ast.FunctionDef) and m.name in ("solve", "_validate"):
+                        overrides.append(f"{n.name}.{m.name}")
+    return dict(validate_guards=guards if guards is not None else ["<never called>"], self_stores=stores, returns_solve=ret_ok, overrides=overrides)
+
+
 def coq_str(s):
     return '"' + s + '"'
 
@@ -211,6 +252,14 @@ def main(repo, outdir):
             coq_str(k), coq_list([coq_str(x) for x in v["req_datafit"]]), coq_list([coq_str(x) for x in v["req_penalty"]]), calls,
             b(v["refuses_sparse"]), b(v["checks_sparse_suffix"]), b(v["requires_groups"]), b(v["requires_no_datafit"]), b(v["checks_subdiff"])))
     lines.append("Definition solvers : list solver := " + coq_list(sl) + ".")
+    sp = solve_proxy(repo)
+    tables["solve_proxy"] = sp
+    json.dump(tables, open(os.path.join(outdir, "tables.json"), "w"), indent=1)
+    lines.append("(* BaseSolver.solve: guards of the self._validate call, attributes of self it stores, final return, overrides *)")
+    lines.append("Definition solve_validate_guards : list string := " + coq_list([coq_str(x) for x in sp["validate_guards"]]) + ".")
+    lines.append("Definition solve_self_stores : list string := " + coq_list([coq_str(x) for x in sp["self_stores"]]) + ".")
+    lines.append("Definition solve_returns_solve : bool := " + b(sp["returns_solve"]) + ".")
+    lines.append("Definition solve_overrides : list string := " + coq_list([coq_str(x) for x in sp["overrides"]]) + ".")
     text = "\n".join(lines) + "\n"
     p = os.path.join(outdir, "Tables.v")
     if not os.path.exists(p) or open(p).read() != text:
@@ -367,6 +416,24 @@ def main_writes(repo, outdir):
         items.append("  {| f_name := %s; f_params := %s; f_writes := %s |}" % (coq_str(q), coq_list([coq_str(p) for p in f["params"]]), coq_list([coq_str(w) for w in f["writes"]])))
     lines.append(";\n".join(items))
     lines.append("].")
+    # state that can leak between fits: memoised functions of the compilation helper, and whether compiled_clone builds a
+    # NEW instance on every call (its return value is a constructor call on the cached class, never a cached object)
+    jt = parse(repo, "skglm/utils/jit_compilation.py")
+    cached, fresh, module_state = [], False, []
+    for node in jt.body:
+        if isinstance(node, ast.FunctionDef):
+            if any("cache" in ast.unparse(d) for d in node.decorator_list):
+                cached.append(node.name)
+            if node.name == "compiled_clone":
+                rets = [n for n in ast.walk(node) if isinstance(n, ast.Return)]
+                fresh = (len(rets) == 1 and isinstance(rets[0].value, ast.Call) and isinstance(rets[0].value.func, ast.Call)
+                         and ast.unparse(rets[0].value.func.func) == "jit_cached_compile"
+                         and ast.unparse(rets[0].value) .endswith("(**instance.params_to_dict())"))
+        elif isinstance(node, (ast.Assign, ast.AugAssign, ast.AnnAssign)):
+            module_state.append(ast.unparse(node)[:60])
+    lines.append("Definition cached_functions : list string := " + coq_list([coq_str(x) for x in cached]) + ".")
+    lines.append("Definition compiled_clone_builds_fresh_instance : bool := " + ("true" if fresh else "false") + ".")
+    lines.append("Definition jit_module_state : list string := " + coq_list([coq_str(x) for x in module_state]) + ".")
     text = "\n".join(lines) + "\n"
     p = os.path.join(outdir, "Writes.v")
     if not os.path.exists(p) or open(p).read() != text:
